@@ -85,7 +85,7 @@ Qed.
 (* UpdateItem keeps the invariant when the updated item still carries the key it is filed under *)
 Definition UK (c : ictx) (t : table) (k : item) (e : str) (names : fmap str) (vals : item) : Prop :=
   forall key it' f, get_key (t_ks t) (t_defs t) k = inr key ->
-    interp_update lang_update c (t_name t) e (match lookup key (t_data t) with Some i => i | None => k end) vals names = Ok (it', f) ->
+    interp_update lang_update c (t_name t) e (match lookup key (t_data t) with Some i => i | None => Key.key_item (t_ks t) k end) vals names = Ok (it', f) ->
     get_key (t_ks t) (t_defs t) it' = inr key.
 
 Lemma KInv_update c t k e cond names vals :
@@ -164,8 +164,11 @@ Proof.
     + unfold key_declared; cbn. unfold check_schema in CS.
       destruct oh as [[|c0 hk]|]; try discriminate.
       destruct (mem (c0 :: hk) defs) eqn:M; [|discriminate].
-      destruct orr as [[|c1 rk]|]; inversion CS; subst; auto.
-      destruct (mem (c1 :: rk) defs) eqn:M2; inversion CS; subst; auto.
+      destruct orr as [[|c1 rk]|].
+      * destruct (key_typed _ _); inversion CS; subst; auto.
+      * destruct (mem (c1 :: rk) defs) eqn:M2; [|discriminate].
+        destruct (key_typed _ _ && key_typed _ _); inversion CS; subst; auto.
+      * destruct (key_typed _ _); inversion CS; subst; auto.
   - intros t0 ppr d t' [H1 [H2 [H3 H4]]] Ea. unfold add_global_index in Ea.
     destruct (negb ppr && negb (id_throughput d)); [discriminate|].
     destruct (check_schema _ _ _) as [[h r]|]; [|discriminate]. inversion Ea; subst. split; [exact H1|split; [exact H2|split; [exact H3|exact H4]]].
